@@ -273,7 +273,7 @@ PROPERTIES.update({
                  "u05_flags_parse_bytes",
                  "u06_int_unpack_total", "u06_narrow_unpack_total", "u06_string_unpack_q", "u06_string_unpack_t", "u06_string_unpack_huge_len",
                  "u06_rle_segment_total_u64", "u06_rle_segment_total_i64", "u06_rle_segment_utf8", "u06_bundle_decoder_call_site"],
-        "not_under_contract": ["Automerge::load / load_incremental / rescue", "Change::from_bytes and the change/document/bundle column decoders", "sync::Message::decode with changes, State::decode",
+        "not_under_contract": ["APPLYING decoded changes (BatchApply; a well-formed but semantically invalid change panics there: DESIGN section 7)", "Automerge::load / load_incremental / rescue", "Change::from_bytes and the change/document/bundle column decoders", "sync::Message::decode with changes, State::decode",
                                "ActorId / ChangeHash hex parsing", "the RLE/delta column decoders feeding ObjIdIter/KeyIter/OpIdListIter (arbitrary sources in the Verus unit)", "import / import_obj (str code; a panic there, D9, was repaired but is not decided by this check)",
                                "parse combinators map/tuple2/apply_n/length_prefixed/range_of (generic FnMut parsers)", "hexane Column::load, slabs, delta/bool/raw decoders"],
         "assumptions": ["input slices shorter than usize::MAX", "Bloom bit arrays < 2^28 bytes"],
